@@ -12,7 +12,12 @@
 //   - a determinism scan of the production files of render/dc (go/packages with
 //     type information): go statements, select statements, range loops over maps,
 //     channel receives, imports of math/rand, time, sync, os, crypto/rand, and calls
-//     of runtime.* — each as a list of strings "file:line: text".
+//     of runtime.* — each as a list of strings "file:line: text";
+//   - renderer state: every field of a type that has a Render method (the renderer value
+//     outlives a Render call) which some function assigns, with every read of such a field
+//     classified as "warn-once" (the condition `!r.f` of an if without else whose body holds only
+//     log.* calls and `r.f = true`) or listed as another read "Type.field@func"; assignments to
+//     package-level variables inside functions are listed too.
 //
 // Tables are data, the translation is total; a source the translator cannot read
 // is an error (broken tie), never skipped.
@@ -298,6 +303,170 @@ func Parse(repo string) (*Tables, error) {
 			}
 		}
 	}
+	// ---- renderer state
+	rendererTypes := map[string]bool{}
+	for _, f := range p.Syntax {
+		for _, d := range f.Decls {
+			if fd, ok := d.(*ast.FuncDecl); ok && fd.Recv != nil && fd.Name.Name == "Render" {
+				if tn := recvTypeName(fd); tn != "" {
+					rendererTypes[tn] = true
+				}
+			}
+		}
+	}
+	// fieldOf returns "Type.field" when e selects a field of a renderer type
+	fieldOf := func(e ast.Expr) string {
+		se, ok := e.(*ast.SelectorExpr)
+		if !ok {
+			return ""
+		}
+		sel, ok := p.TypesInfo.Selections[se]
+		if !ok || sel.Kind() != types.FieldVal {
+			return ""
+		}
+		rt := sel.Recv()
+		if pt, ok := rt.(*types.Pointer); ok {
+			rt = pt.Elem()
+		}
+		nt, ok := rt.(*types.Named)
+		if !ok || !rendererTypes[nt.Obj().Name()] {
+			return ""
+		}
+		return nt.Obj().Name() + "." + se.Sel.Name
+	}
+	written := map[string]bool{}
+	for _, k := range []string{"statewrite", "statewarnonce", "stateread", "globalwrite"} {
+		t.Scan[k] = []string{}
+	}
+	lhsRoot := func(e ast.Expr) ast.Expr { // strip index / star / paren
+		for {
+			switch x := e.(type) {
+			case *ast.IndexExpr:
+				e = x.X
+			case *ast.StarExpr:
+				e = x.X
+			case *ast.ParenExpr:
+				e = x.X
+			default:
+				return e
+			}
+		}
+	}
+	forFuncs := func(visit func(fname string, body *ast.BlockStmt)) {
+		for _, f := range p.Syntax {
+			for _, d := range f.Decls {
+				if fd, ok := d.(*ast.FuncDecl); ok && fd.Body != nil {
+					visit(fd.Name.Name, fd.Body)
+				}
+			}
+		}
+	}
+	forFuncs(func(fname string, body *ast.BlockStmt) {
+		ast.Inspect(body, func(n ast.Node) bool {
+			var lhs []ast.Expr
+			switch x := n.(type) {
+			case *ast.AssignStmt:
+				if x.Tok != token.DEFINE {
+					lhs = x.Lhs
+				}
+			case *ast.IncDecStmt:
+				lhs = []ast.Expr{x.X}
+			}
+			for _, l := range lhs {
+				root := lhsRoot(l)
+				if f := fieldOf(root); f != "" {
+					written[f] = true
+					t.Scan["statewrite"] = append(t.Scan["statewrite"], f+"@"+fname)
+				}
+				if id, ok := root.(*ast.Ident); ok {
+					if v, ok := p.TypesInfo.Uses[id].(*types.Var); ok && v.Parent() == p.Types.Scope() {
+						t.Scan["globalwrite"] = append(t.Scan["globalwrite"], id.Name+"@"+fname)
+					}
+				}
+			}
+			return true
+		})
+	})
+	// reads of written fields
+	isLogCall := func(s ast.Stmt) bool {
+		es, ok := s.(*ast.ExprStmt)
+		if !ok {
+			return false
+		}
+		ce, ok := es.X.(*ast.CallExpr)
+		if !ok {
+			return false
+		}
+		se, ok := ce.Fun.(*ast.SelectorExpr)
+		if !ok {
+			return false
+		}
+		id, ok := se.X.(*ast.Ident)
+		if !ok {
+			return false
+		}
+		pn, ok := p.TypesInfo.Uses[id].(*types.PkgName)
+		return ok && pn.Imported().Path() == "log"
+	}
+	forFuncs(func(fname string, body *ast.BlockStmt) {
+		accounted := map[*ast.SelectorExpr]bool{} // selector occurrences that are writes or warn-once uses
+		ast.Inspect(body, func(n ast.Node) bool {
+			switch x := n.(type) {
+			case *ast.AssignStmt:
+				if x.Tok == token.ASSIGN { // plain store: the left side is not a read
+					for _, l := range x.Lhs {
+						if se, ok := l.(*ast.SelectorExpr); ok && fieldOf(se) != "" {
+							accounted[se] = true
+						}
+					}
+				}
+			case *ast.IfStmt:
+				ue, ok := x.Cond.(*ast.UnaryExpr)
+				if !ok || ue.Op != token.NOT || x.Else != nil || x.Init != nil {
+					return true
+				}
+				cse, ok := ue.X.(*ast.SelectorExpr)
+				f := ""
+				if ok {
+					f = fieldOf(cse)
+				}
+				if f == "" || !written[f] {
+					return true
+				}
+				pure, sets := true, false
+				for _, s := range x.Body.List {
+					if isLogCall(s) {
+						continue
+					}
+					as, ok := s.(*ast.AssignStmt)
+					if ok && as.Tok == token.ASSIGN && len(as.Lhs) == 1 && len(as.Rhs) == 1 {
+						if id, ok := as.Rhs[0].(*ast.Ident); ok && id.Name == "true" && fieldOf(as.Lhs[0]) == f {
+							sets = true
+							continue
+						}
+					}
+					pure = false
+				}
+				if pure && sets {
+					accounted[cse] = true
+					t.Scan["statewarnonce"] = append(t.Scan["statewarnonce"], f+"@"+fname)
+				}
+			}
+			return true
+		})
+		ast.Inspect(body, func(n ast.Node) bool {
+			if se, ok := n.(*ast.SelectorExpr); ok && !accounted[se] {
+				if f := fieldOf(se); f != "" && written[f] {
+					t.Scan["stateread"] = append(t.Scan["stateread"], f+"@"+fname)
+				}
+			}
+			return true
+		})
+	})
+	for _, k := range []string{"statewrite", "statewarnonce", "stateread", "globalwrite"} {
+		sort.Strings(t.Scan[k])
+	}
+
 	for k := range impSet {
 		t.Import = append(t.Import, k)
 	}
@@ -312,6 +481,20 @@ func Parse(repo string) (*Tables, error) {
 		}
 	}
 	return t, nil
+}
+
+func recvTypeName(fd *ast.FuncDecl) string {
+	if fd.Recv == nil || len(fd.Recv.List) != 1 {
+		return ""
+	}
+	e := fd.Recv.List[0].Type
+	if s, ok := e.(*ast.StarExpr); ok {
+		e = s.X
+	}
+	if id, ok := e.(*ast.Ident); ok {
+		return id.Name
+	}
+	return ""
 }
 
 func coqStrings(xs []string) string {
@@ -338,7 +521,7 @@ func Gen(repo string) (string, []byte, error) {
 	b.WriteString("\n(* determinism scan of the production files of render/dc *)\nOpen Scope string_scope.\n")
 	fmt.Fprintf(&b, "Definition dcScanFiles : list string := %s.\n", coqStrings(t.Files))
 	fmt.Fprintf(&b, "Definition dcScanImports : list string := %s.\n", coqStrings(t.Import))
-	for _, k := range []string{"go", "select", "maprange", "recv", "badimport", "runtime"} {
+	for _, k := range []string{"go", "select", "maprange", "recv", "badimport", "runtime", "statewrite", "statewarnonce", "stateread", "globalwrite"} {
 		fmt.Fprintf(&b, "Definition dcScan_%s : list string := %s.\n", k, coqStrings(t.Scan[k]))
 	}
 	return "DCTables.v", []byte(b.String()), nil
